@@ -125,6 +125,11 @@ let handle line =
       let n = List.length w in
       (match bb_recognise w (nat_of_int ((n + 2) * (n + 2))) (nat_of_int (64 * (n + 2))) with
        | None -> "NONE" | Some true -> "T" | Some false -> "F")
+  | ["VIABLE"; ks] ->
+      let w = List.map nat_of_int (ints ks) in
+      let n = List.length w in
+      (match bb_viable w (nat_of_int ((n + 2) * (n + 2))) (nat_of_int (64 * (n + 2))) with
+       | None -> "NONE" | Some true -> "T" | Some false -> "F")
   | ["PARSE"; s] ->
       let w = cps s in
       let n = List.length w in
